@@ -161,6 +161,10 @@ theorem render_quiet (c : Cfg) (i : Nat) (r : Ret) (st : St) :
   cases r with
   | none => simp [render]
   | nothing => simp [render]
+  | body len =>
+    by_cases hl : len = 0
+    · simp [render, hl]
+    · simpa [render, hl] using doBody_quiet c i len st
   | writes code len =>
     have h1 := doHeader_quiet c i code st
     rcases hr : doHeader c i code st with ⟨st', _ | p⟩
@@ -565,6 +569,10 @@ theorem render_rel (i : Nat) (r : Ret) (hr : match r with | .writes code _ => P 
   cases r with
   | none => exact ok.refl st
   | nothing => exact ok.refl st
+  | body len =>
+    by_cases hl : len = 0
+    · simpa [render, hl] using ok.refl st
+    · simpa [render, hl] using ok.body i len st
   | writes code len =>
     have h1 := ok.hdr i code st hr
     rcases hd : doHeader c i code st with ⟨st', _ | p⟩
@@ -661,12 +669,16 @@ theorem balanced_escEv (p : Option (PVal × Nat)) : Balanced (escEv p) := by
   rcases p with _ | ⟨v, j⟩ <;> intro s <;> rfl
 
 /-- the trace of a request is the events of the top-level `run`, plus `escaped` if a panic got out -/
+@[simp] theorem Cfg.st0_idx (c : Cfg) : c.st0.idx = 0 := rfl
+@[simp] theorem Cfg.st0_trace (c : Cfg) : c.st0.trace = [] := rfl
+@[simp] theorem Cfg.st0_out (c : Cfg) : c.st0.out = [] := rfl
+
 theorem serve_ext (c : Cfg) :
-    ∃ evs st1 p, run c c.fuel {} = (st1, p) ∧ Ext {} st1 evs ∧ st1.idx ≤ c.n + 1 ∧
+    ∃ evs st1 p, run c c.fuel c.st0 = (st1, p) ∧ Ext c.st0 st1 evs ∧ st1.idx ≤ c.n + 1 ∧
       (serve c).trace = evs ++ escEv p ∧ (serve c).w = st1.w ∧ (serve c).out = st1.out := by
-  obtain ⟨evs, h⟩ := run_ext c c.fuel {}
-  have hb := run_idx_bound c c.fuel {} (by show 0 ≤ c.n + 1; omega)
-  rcases hr : run c c.fuel {} with ⟨st1, _ | ⟨v, j⟩⟩
+  obtain ⟨evs, h⟩ := run_ext c c.fuel c.st0
+  have hb := run_idx_bound c c.fuel c.st0 (by simp)
+  rcases hr : run c c.fuel c.st0 with ⟨st1, _ | ⟨v, j⟩⟩
   · rw [hr] at h hb
     have := h.tr
     refine ⟨evs, st1, none, rfl, h, hb, ?_, ?_, ?_⟩ <;> simp [serve, hr, escEv]
@@ -771,7 +783,16 @@ structure Mono (c : Cfg) (a b : St) : Prop where
   out : ∀ t ∈ a.out, t ∈ b.out
   detail : Tok.detail ∈ b.out → Tok.detail ∈ a.out ∨ c.dev = true
   recd : ∀ r j s, Ev.recovered r j s ∈ b.trace →
-    Ev.recovered r j s ∈ a.trace ∨ (b.w.status = finStatus s ∧ recTok c ∈ b.out)
+    Ev.recovered r j s ∈ a.trace ∨ (b.w.status = finStatus s ∧ (c.head = false → recTok c ∈ b.out))
+
+/-- the body-token list after one Write: unchanged for HEAD, one more token otherwise -/
+theorem outStep (h : Bool) (o : List Tok) (t : Tok) :
+    (∀ x ∈ o, x ∈ (if h = true then o else o ++ [t])) ∧
+    (∀ x, x ∈ (if h = true then o else o ++ [t]) → x ∈ o ∨ x = t) ∧
+    (h = false → t ∈ (if h = true then o else o ++ [t])) := by
+  cases h
+  · refine ⟨fun x hx => by simp [hx], fun x hx => by simpa using hx, fun _ => by simp⟩
+  · exact ⟨fun x hx => by simpa using hx, fun x hx => Or.inl (by simpa using hx), fun h => by cases h⟩
 
 theorem spendOnce_spec {c : Cfg} (h : c.onceBug = false) (st : St) : spendOnce c st = st := by
   simp [spendOnce, h]
@@ -793,7 +814,7 @@ theorem mono_ok (c : Cfg) (hb : c.onceBug = false) :
       rcases m2.recd r j s h with h | h
       · rcases m1.recd r j s h with h | ⟨hs, ht⟩
         · exact Or.inl h
-        · refine Or.inr ⟨?_, m2.out _ ht⟩
+        · refine Or.inr ⟨?_, fun hh => m2.out _ (ht hh)⟩
           rw [m2.sticky (by rw [hs]; exact finStatus_ne s), hs]
       · exact Or.inr h
   ev := by
@@ -818,10 +839,10 @@ theorem mono_ok (c : Cfg) (hb : c.onceBug = false) :
     split
     · rw [spendOnce_spec hb]
       exact ⟨hw, fun _ => rfl, id, fun _ h => h, Or.inl, fun _ _ _ h => Or.inl h⟩
-    · refine ⟨write_wok s.w n n hw, write_sticky s.w n n, id, fun t h => by simp [h], ?_, fun _ _ _ h => Or.inl h⟩
+    · have os := outStep c.head s.out (Tok.xs n)
+      refine ⟨write_wok s.w n n hw, write_sticky s.w n n, id, os.1, ?_, fun _ _ _ h => Or.inl h⟩
       intro h
-      simp only [List.mem_append, List.mem_singleton] at h
-      rcases h with h | h
+      rcases os.2.1 _ h with h | h
       · exact Or.inl h
       · cases h
   recov := by
@@ -832,12 +853,12 @@ theorem mono_ok (c : Cfg) (hb : c.onceBug = false) :
     simp only [Bool.false_eq_true, if_false, St.ev_w, St.ev_trace]
     have hw1 : WOK (s.w.writeHeader 500) := wh_wok _ _ (by decide) hw
     generalize (if c.dev = true then c.detailLen else 21) = len
-    refine ⟨write_wok (s.w.writeHeader 500) len len hw1, ?_, id, fun t h => by simp [St.ev, h], ?_, ?_⟩
+    have os := outStep c.head s.out (if c.dev = true then Tok.detail else Tok.plain)
+    refine ⟨write_wok (s.w.writeHeader 500) len len hw1, ?_, id, os.1, ?_, ?_⟩
     · intro h
       rw [write_sticky (s.w.writeHeader 500) len len (by rw [wh_sticky _ _ h]; exact h), wh_sticky _ _ h]
     · intro h
-      simp only [St.ev, List.mem_append, List.mem_singleton] at h
-      rcases h with h | h
+      rcases os.2.1 _ h with h | h
       · exact Or.inl h
       · right
         by_cases hd : c.dev = true
@@ -849,7 +870,7 @@ theorem mono_ok (c : Cfg) (hb : c.onceBug = false) :
       · exact Or.inl h
       · right
         cases h
-        refine ⟨?_, by simp [St.ev, recTok]⟩
+        refine ⟨?_, by simpa [recTok, St.ev] using os.2.2⟩
         by_cases h0 : s.w.status = 0
         · have e500 : (s.w.writeHeader 500).status = 500 := wh_fresh _ _ hw h0
           rw [write_sticky (s.w.writeHeader 500) len len (by rw [e500]; decide), e500]; simp [finStatus, h0]
@@ -992,6 +1013,11 @@ theorem render_origin {c : Cfg} {i : Nat} {r : Ret} {st st' : St} {v : PVal} {j 
   cases r with
   | none => simp [render] at h
   | nothing => simp [render] at h
+  | body len =>
+    by_cases hl : len = 0
+    · simp [render, hl] at h
+    · simp only [render, hl, if_false] at h
+      exact doBody_origin h
   | writes code len =>
     rcases hd : doHeader c i code st with ⟨s1, _ | ⟨v1, j1⟩⟩
     · by_cases hl : len = 0
@@ -1169,7 +1195,7 @@ theorem Contained.trans {r : Nat} {a b d : St} {p : Option (PVal × Nat)}
 theorem recoverWrite_spec {c : Cfg} (hb : c.onceBug = false) (r : Nat) (st : St) :
     recoverWrite c r st =
       ({ st with w := step (st.w.writeHeader 500) (.write (if c.dev then c.detailLen else 21) (if c.dev then c.detailLen else 21)),
-                 out := st.out ++ [if c.dev then Tok.detail else Tok.plain] }, none) := by
+                 out := if c.head then st.out else st.out ++ [if c.dev then Tok.detail else Tok.plain] }, none) := by
   simp [recoverWrite, hb]
 
 /-- with `onceBug = false` nothing ever propagates out of a Recovery frame, and a Recovery frame that
@@ -1357,9 +1383,9 @@ theorem run_no_escaped (c : Cfg) (f : Nat) (st : St) :
   exact run_rel ok c.codesOK_true f st
 
 theorem serve_evs_no_escaped {c : Cfg} {st1 : St} {p : Option (PVal × Nat)} {evs : List Ev}
-    (hr : run c c.fuel {} = (st1, p)) (hx : Ext {} st1 evs) : ∀ v j, Ev.escaped v j ∉ evs := by
+    (hr : run c c.fuel c.st0 = (st1, p)) (hx : Ext c.st0 st1 evs) : ∀ v j, Ev.escaped v j ∉ evs := by
   intro v j h
-  have := run_no_escaped c c.fuel {} (Ev.escaped v j) (by rw [hr, hx.tr]; simp [h]) ⟨v, j, rfl⟩
+  have := run_no_escaped c c.fuel c.st0 (Ev.escaped v j) (by rw [hr, hx.tr]; simp [h]) ⟨v, j, rfl⟩
   cases this
 
 /-! ### Part 4: the hypotheses of C15 and request-level lemmas -/
@@ -1413,15 +1439,15 @@ theorem Cfg.nextOnceB_ok (c : Cfg) (r : Nat) (h : c.nextOnceB r = true) : NextOn
   rw [hs] at this
   simpa using this
 
-theorem wok_init : WOK ({} : St).w := by intro h; cases h
+theorem wok_init (c : Cfg) : WOK c.st0.w := by intro h; cases h
 
 /-- the request as one extension of the initial state, with everything the C15 proofs need -/
 theorem serve_contained {c : Cfg} {r : Nat} (hI : Installed c r) (hg : NextOnceBefore c r) :
     ∃ evs p, (serve c).trace = evs ++ escEv p ∧ AbortsOK r evs ∧ Balanced evs ∧
       (∀ v j, Ev.escaped v j ∉ evs) ∧ ∀ v j, p = some (v, j) → j < r := by
   obtain ⟨evs, st1, p, hr, hx, hb, ht, _, _⟩ := serve_ext c
-  have k := contained_run hI.spec hI.codes hI.recAt hg c.fuel {} (by show c.n + 1 - 0 ≤ c.n + 2; omega)
-    (Nat.zero_le r) wok_init st1 p hr
+  have k := contained_run hI.spec hI.codes hI.recAt hg c.fuel c.st0 (by show c.n + 1 - 0 ≤ c.n + 2; omega)
+    (Nat.zero_le r) (wok_init c) st1 p hr
   obtain ⟨evs', ht', ho⟩ := k.evs
   have : evs' = evs := by
     have := hx.tr; rw [ht'] at this; exact List.append_cancel_left this
@@ -1432,9 +1458,9 @@ theorem serve_contained {c : Cfg} {r : Nat} (hI : Installed c r) (hg : NextOnceB
     something left `finStatus` and its body token -/
 theorem serve_mono (c : Cfg) (hb : c.onceBug = false) (hc : c.codesOK (fun code => 100 ≤ code)) :
     ∀ r j s, Ev.recovered r j s ∈ (serve c).trace →
-      (serve c).w.status = finStatus s ∧ recTok c ∈ (serve c).out := by
+      (serve c).w.status = finStatus s ∧ (c.head = false → recTok c ∈ (serve c).out) := by
   obtain ⟨evs, st1, p, hr, hx, _, ht, hw, ho⟩ := serve_ext c
-  have m := run_mono hb hc c.fuel {} wok_init
+  have m := run_mono hb hc c.fuel c.st0 (wok_init c)
   rw [hr] at m
   intro r j s h
   rw [hw, ho]
